@@ -425,7 +425,7 @@ def merge(results: List[Dict[str, Any]]) -> Dict[str, Any]:
             del t['witnesses'][MAX_WITNESS_PER_MECH:]
         for k, v in r['notes'].items():
             if isinstance(v, (int, float)) and not isinstance(v, bool) and isinstance(m['notes'].get(k, 0), (int, float)):
-                m['notes'][k] = m['notes'].get(k, 0) + v
+                m['notes'][k] = max(m['notes'].get(k, v), v) if k.startswith('max_') else m['notes'].get(k, 0) + v
             else:
                 m['notes'].setdefault(k, v)
         for k, v in r.get('exhaustive', {}).items():
